@@ -83,7 +83,7 @@ class RepetitionPulseTemplate(LoopPulseTemplate, ParameterConstrainer, Measureme
         else:
             return RepetitionPulseTemplate(
                 self.body,
-                self.repetition_count * repetition_count,
+                self.repetition_count * ExpressionScalar.make(repetition_count),
                 parameter_constraints=self.parameter_constraints,
                 measurements=self.measurement_declarations
             )
